@@ -72,7 +72,7 @@ CHECKS = {
    "Co-implemented set used: nop clr inc dec cil cir cpy add mult and or xor nand nor xnor not rset j jz i2r r2o (sub and r2m are stubs in the simulator, m2r is a recorded finding; pipelined, floating-point, carry/compare, shared-object and synchronous-I/O opcodes are not in the specification: synchronous I/O is C02/C04). Programs of 8-12 instructions, 24-40 retired instructions each; RAM cells and registers the reset leaves unknown are taken as zero (FPGA power-up) in the Verilog interpreter. 32/64-bit: no specification values (TLC integers are 32-bit), back-ends compared with each other only. Trusted: TLC, the Verilog interpreter (harness/vlog), the assembly printer.",
    "DESIGN.md §4 C01", "bmverif"),
  "C02": ("model_checking",
-   "TLA+ spec BMFabric: a BondMachine as a network of processes joined by handshaked bonds (fan-out: a send completes when every sink has taken the value); TLC checks under EVERY interleaving of the processors and every environment stall (AnySpec) that each external output delivers a prefix of its closed-form stream (Kahn determinacy); TLC -simulate draws topologies (chains, fan-out of an external input / of a processor output, two outputs, mergers), phase shifts, domain sharing and environment timings; each machine is built as a real Bondmachine through the API, run on the real simulator and on the real generated top-level Verilog inside the same four-phase environment, and the streams on every external output are compared: HDL against simulator, both against the specification",
+   "TLA+ spec BMFabric: a BondMachine as a network of processes joined by handshaked bonds (fan-out: a send completes when every sink has taken the value); TLC checks under EVERY interleaving of the processors and every environment stall (AnySpec) that each external output delivers a prefix of its closed-form stream (Kahn determinacy); TLC -simulate draws topologies (chains, fan-out of an external input / of a processor output, two outputs, mergers), phase shifts, domain sharing and environment timings; each machine is built as a real Bondmachine through the API, run on the real simulator and on the real generated top-level Verilog inside the same four-phase environment, and the streams on every external output are compared: HDL against simulator (the verdict), both against the specification (tells which side deviates; both deviating alike is the handshake defect recorded under C04 and is counted, not alarmed)",
    "The streams are timing independent in the model, so any difference between simulator, hardware and reference is a wiring or handshake defect, whatever the relative speeds; topologies include processors sharing one domain (processor index differs from domain index), external inputs and processor outputs with two sinks, processors out of phase, and environments that hold valid or delay acknowledgements.",
    "Eight topologies of 2-3 processors, phase shifts 0-2, three environment timings, 8-bit registers, 9-26 values per output; the netlist is judged by behaviour (streams), not by a structural comparison of the top-level text. Trusted: TLC, the Verilog interpreter, the environment processes of the harness.",
    "DESIGN.md §4 C02", "bmverif"),
